@@ -146,6 +146,9 @@ class RealGetContents(Contract):
                     out.append(("folder-member-list-starts-at-this-member's-index", (eq(off, Lp.i) if off is not None and V.is_sym(off) else bool(off is not None and off == Lp.i))))
                 fapp = [e for e in all_apps if e not in apps]
                 out.append(("member-joins-its-folder's-list", bool(len(fapp) == 1) and (And(eq(fapp[0].args[0], member), eq(fapp[0].recv, attr_now(c, sized[0].args[3], "files"))) if len(fapp) == 1 else False)))
+                # ... under its OWN archive-wide index (members of a folder need not be consecutive: C01 id invariant)
+                own = len(fapp) == 1 and len(fapp[0].args) >= 2
+                out.append(("member-joins-its-folder's-list-under-its-own-index", (eq(fapp[0].args[1], Lp.i) if V.is_sym(fapp[0].args[1]) else bool(fapp[0].args[1] == Lp.i)) if own else False))
                 cnt = [e for e in evs if e.kind == "setattr" and e.name == "outstreams"]
                 out.append(("cursor-advances-by-one-member", len(cnt) == 1))
             else:
